@@ -8,8 +8,9 @@ MODELS := $(FAMILIES:%=build/%_model)
 .PHONY: setup gen coq coqproject models clean
 setup: coq models
 
+# every translator / constant extractor (tools/gen_*.py) writes its coq/Gen/*.v from $(REPO)
 gen:
-	@python3 tools/gen_constants.py $(REPO)
+	@for g in tools/gen_*.py; do python3 $$g $(REPO) || exit 3; done
 
 # _CoqProject lists every .v under coq/ (Gen/ included); Makefile.coq is refreshed when it changes
 coqproject: gen
